@@ -9,6 +9,7 @@ mod props;
 mod battery;
 mod ikprops;
 mod c12;
+mod c20;
 
 pub struct Case(pub HashMap<String, Vec<f64>>, pub HashMap<String, String>);
 impl Case {
